@@ -12,6 +12,12 @@ import time
 from . import registry
 
 ROOT = os.path.dirname(os.path.dirname(os.path.abspath(__file__)))
+
+
+def OUT():
+    """where evidence/ and replays/ are written: /verif, or a scratch directory for the self-test runs of the thorough tier"""
+    return os.environ.get("VERIF_OUT") or ROOT
+
 CACHE = os.path.join(ROOT, ".cache")
 
 
@@ -181,8 +187,8 @@ _oracle_cache = {}
 
 def write_violation(pid, n, kind, unit, f, repo, work, seed, cfg):
     """returns (path, found_input: bool)"""
-    os.makedirs(os.path.join(ROOT, "replays"), exist_ok=True)
-    path = os.path.join(ROOT, "replays", "%s-%d.json" % (pid, n))
+    os.makedirs(os.path.join(OUT(), "replays"), exist_ok=True)
+    path = os.path.join(OUT(), "replays", "%s-%d.json" % (pid, n))
     doc = dict(property=pid, lane=kind, seed=seed, tree=repo)
     found = False
     if kind == "verus":
